@@ -576,10 +576,17 @@ func (e *c33Env) run(cs c33Case) {
 			if multi {
 				ssrc = cs.Tracks[op.Track].SSRC
 			}
+			// the packet handed over lives in the caller's receive buffer, which the caller re-uses as soon as
+			// WriteRTP returned (a receive loop around one buffer): a writer that keeps the slice for a later
+			// rewrite of its last page writes whatever the buffer holds by then
+			recv := append([]byte{}, payload...)
 			err := write[op.Track](&rtp.Packet{
 				Header:  rtp.Header{Version: 2, PayloadType: 111, SequenceNumber: uint16(i), Timestamp: uint32(i) * 960, SSRC: ssrc}, //nolint:gosec
-				Payload: payload,
+				Payload: recv,
 			})
+			for j := range recv {
+				recv[j] = 0xEE
+			}
 			switch {
 			case err == nil && valid:
 				x.packets = append(x.packets, payload)
